@@ -11,6 +11,7 @@ import (
 	"regexp"
 	"sort"
 	"strings"
+	"sync"
 
 	"github.com/flamego/flamego"
 	"github.com/flamego/flamego/internal/route"
@@ -898,6 +899,7 @@ func flameRegisterArgs(f *flamego.Flame, viaRoutes bool, method string, extra []
 	}()
 	h := func(c flamego.Context) {
 		*hit = idx
+		reqViews.Store(hit, reqView(c.Request().Request))
 		cp := map[string]string{}
 		for k, v := range c.Params() {
 			cp[k] = v
@@ -916,6 +918,35 @@ func flameRegisterArgs(f *flamego.Flame, viaRoutes bool, method string, extra []
 	}
 	rt = f.Route(method, txt, []flamego.Handler{h})
 	return
+}
+
+// reqViews: what the route handler registered by flameRegister* saw of the request it answered, keyed by the
+// caller's hit pointer. The framework routes a request; it does not write it: the handler sees the method, the
+// path and the header the client sent.
+var reqViews sync.Map
+
+// reqView renders method, path and header of a request (header names as stored, sorted).
+func reqView(r *http.Request) string {
+	names := make([]string, 0, len(r.Header))
+	for k := range r.Header {
+		names = append(names, k)
+	}
+	sort.Strings(names)
+	var sb strings.Builder
+	sb.WriteString(r.Method + " " + r.URL.Path)
+	for _, k := range names {
+		fmt.Fprintf(&sb, " | %s: %q", k, r.Header[k])
+	}
+	return sb.String()
+}
+
+// seenRequest: the view recorded for the caller's hit pointer ("" if its handler has not run).
+func seenRequest(hit *int) string {
+	v, ok := reqViews.LoadAndDelete(hit)
+	if !ok {
+		return ""
+	}
+	return v.(string)
 }
 
 func parserOf(w *core.W) *route.Parser {
